@@ -76,9 +76,29 @@ class Seq(Node):
         return " ".join(map(repr, self.items)) if self.items else "ε"
 
 
+def _lift_ifexp(e, budget=4):
+    """Arithmetic over a conditional expression as a conditional expression over arithmetic (outermost first, a few levels)."""
+    if e is None or budget <= 0 or isinstance(e, ast.IfExp):
+        return e
+    if isinstance(e, ast.BinOp):
+        l, r = _lift_ifexp(e.left, budget - 1), _lift_ifexp(e.right, budget - 1)
+        if isinstance(l, ast.IfExp):
+            return ast.IfExp(test=l.test, body=_lift_ifexp(ast.BinOp(left=l.body, op=e.op, right=r), budget - 1), orelse=_lift_ifexp(ast.BinOp(left=l.orelse, op=e.op, right=r), budget - 1))
+        if isinstance(r, ast.IfExp):
+            return ast.IfExp(test=r.test, body=_lift_ifexp(ast.BinOp(left=l, op=e.op, right=r.body), budget - 1), orelse=_lift_ifexp(ast.BinOp(left=l, op=e.op, right=r.orelse), budget - 1))
+        return e
+    if isinstance(e, ast.UnaryOp) and isinstance(e.op, (ast.USub, ast.UAdd)):
+        o = _lift_ifexp(e.operand, budget - 1)
+        if isinstance(o, ast.IfExp):
+            return ast.IfExp(test=o.test, body=ast.UnaryOp(op=e.op, operand=o.body), orelse=ast.UnaryOp(op=e.op, operand=o.orelse))
+    return e
+
+
 class Rep(Node):
     def __new__(cls, count=None, body=None, var=None, rng=None, it=None):
-        # a conditional count is a choice between two repetitions
+        # a conditional count is a choice between two repetitions (a conditional operand of an arithmetic count is lifted first:
+        # `n - (a if c else b)` == `(n - a) if c else (n - b)`)
+        count = _lift_ifexp(count)
         if isinstance(count, ast.IfExp):
             return Alt(count.test, Rep(count.body, body, var, rng, it), Rep(count.orelse, body, var, rng, it))
         if isinstance(count, ast.Constant) and isinstance(count.value, bool):
